@@ -210,8 +210,8 @@ impl SearchFilters {
             bytes.extend(filter.to_bytes())
         }
 
-        bytes.extend(Self::special_filter_to_bytes("nand", &self.nand_filters));
-        bytes.extend(Self::special_filter_to_bytes("nor", &self.nor_filters));
+        bytes.extend(Self::special_filter_to_bytes("\\nand\\", &self.nand_filters));
+        bytes.extend(Self::special_filter_to_bytes("\\nor\\", &self.nor_filters));
 
         bytes.extend([0x00]);
         bytes
